@@ -135,6 +135,27 @@ def _consts_of(t: Any) -> frozenset:
     return r
 
 
+_ABSTRACTIONS = {"py_pow2", "py_shr", "py_bitand", "py_bitor", "py_bitxor"}
+
+
+def _uses_abstraction(goal: list[Any]) -> bool:
+    seen: set[int] = set()
+    stack = list(goal)
+    while stack:
+        x = stack.pop()
+        i = x.get_id()
+        if i in seen:
+            continue
+        seen.add(i)
+        if z3.is_app(x):
+            if x.num_args() > 0 and x.decl().name() in _ABSTRACTIONS:
+                return True
+            stack.extend(x.children())
+        elif z3.is_quantifier(x):
+            stack.append(x.body())
+    return False
+
+
 def _cone(assumptions: list[Any], negated_goal: Any) -> list[Any]:
     """Cone of influence: the assumptions transitively sharing an uninterpreted constant with the goal.
     Dropping assumptions only weakens the hypothesis, so `unsat` on the slice proves the full VC."""
@@ -200,8 +221,36 @@ def discharge(vc: VC, base: list[Any], timeout_s: float, use_cvc5: bool = True, 
             vc.status, vc.backend = "proved", kind
             break
         if r == z3.sat:
+            m = s.model()
+            # a counter-model is only believed if it really satisfies every hypothesis and the negated goal
+            # (guards against a solver configuration answering sat wrongly; such an answer is treated as unknown)
+            try:
+                vals_ = [m.eval(t, model_completion=True) for t in goal]
+                ok_model = not any(z3.is_false(x) for x in vals_)
+                if ok_model and not all(z3.is_true(x) for x in vals_):
+                    # not fully evaluable: pin the integer constants to the model's values and ask the default core
+                    chk = z3.Solver()
+                    chk.set("timeout", 5000)
+                    for t in goal:
+                        chk.add(t)
+                    for d in m.decls():
+                        if d.arity() == 0 and z3.is_int_value(m[d]):
+                            chk.add(d() == m[d])
+                    if chk.check() == z3.unsat:
+                        ok_model = False
+            except z3.Z3Exception:
+                ok_model = True
+            if not ok_model:
+                vc.detail = f"{kind}: sat with a model that does not satisfy the query (discarded)"
+                continue
+            if _uses_abstraction(goal):
+                # the counter-model may live in an over-approximation (uninterpreted stand-in for a bit operation /
+                # power of two): a failed proof there is 'undecided', never a violation
+                vc.status = "unknown"
+                vc.detail = f"{kind}: counter-model relies on an uninterpreted bit-operation abstraction"
+                break
             vc.status, vc.backend = "failed", kind
-            vc.model = s.model()
+            vc.model = m
             break
         vc.detail = f"{kind}: {s.reason_unknown()}"
     if vc.status == "unknown" and use_cvc5 and last is not None:
@@ -214,7 +263,7 @@ def discharge(vc: VC, base: list[Any], timeout_s: float, use_cvc5: bool = True, 
             r2 = "unknown"
         if r2 == "unsat":
             vc.status, vc.backend = "proved", "cvc5"
-        elif r2 == "sat":
+        elif r2 == "sat" and not _uses_abstraction(goal):
             vc.status, vc.backend = "failed", "cvc5"
     vc.time_s = time.time() - t0
 
@@ -684,6 +733,14 @@ def _enumify(c: Contract, cvals: dict[str, Any]) -> dict[str, Any]:
 
 def _short(v: Any) -> str:
     try:
+        if type(v).__module__.startswith("pyoda_time") and type(v).__name__ in ("LocalDate", "LocalTime", "LocalDateTime", "Instant", "Duration", "Offset", "OffsetDateTime", "OffsetTime", "OffsetDate", "Period", "YearMonth", "Interval", "DateInterval", "AnnualDate", "CalendarSystem"):
+            # the library's own rendering is the readable one (falls back to the field dump when it raises)
+            try:
+                cal = getattr(v, "calendar", None)
+                extra = f" [{cal.id}]" if cal is not None and getattr(cal, "id", "ISO") != "ISO" else ""
+                return f"{type(v).__name__}({v!r}){extra}"[:300]
+            except Exception:  # noqa: BLE001
+                pass
         if hasattr(v, "__dict__") and type(v).__module__.startswith("pyoda_time"):
             return f"{type(v).__name__}{ {k.split('__')[-1]: (x if isinstance(x, (int, str, bool, type(None))) else type(x).__name__) for k, x in vars(v).items()} }"
         s = repr(v)
